@@ -1,7 +1,8 @@
 import TinsModel.RadioTap.Spec
+import TinsModel.RadioTap.Checked
 import Driver.Util
 /- line-protocol driver for RadioTap (property C11): model mode and spec (oracle) mode.
-   ops:  tail | new | parse <hex> | set <field> <hex> | add <bit> <hex> | ser <hex|-> -/
+   ops:  tail | new | parse <hex> | set <field> <hex> | add <bit> <hex> | ser <hex|-> | walk <hex|-> | skipto <bit> <hex|-> -/
 namespace Driver.C11
 open Tins Tins.RT Driver
 
@@ -77,8 +78,58 @@ def serLine (st : State) (inner : Bytes) : String :=
       | .fault f => s!"re=!FAULT:{f} reinner=none"
     s!"ser n={n} hdr={toHex hdr} body=inner fcs={fcs} {re}"
 
+def nsLetter : NsType → String
+  | .radiotap => "R" | .vendor => "V" | .unknown => "U"
+
+def optText : Out Bytes → String
+  | .ok d => toHex d
+  | .throw e => "!" ++ excName e
+  | .fault s => "!FAULT:" ++ s
+
+/-- `has_field()` of the 32 single-bit flags as a mask -/
+def hasFieldMask (buf : Bytes) : Out Nat :=
+  (List.range 32).foldl (fun acc b =>
+    match acc, hasFieldC buf (2 ^ b) with
+    | .ok m, .ok true => .ok (m ||| 2 ^ b)
+    | .ok m, .ok false => .ok m
+    | .ok _, .throw e => .throw e
+    | .ok _, .fault f => .fault f
+    | x, _ => x) (.ok 0)
+
+def walkLine (buf : Bytes) : String :=
+  match walkC M buf with
+  | .throw e => "throw " ++ excName e
+  | .fault f => "FAULT model:" ++ f
+  | .ok (items, c) =>
+    let fs := items.map (fun it => s!" f={it.ns}{nsLetter it.nst}:{it.bit}@{it.ptr}={optText it.opt}")
+    match advanceFieldC M c, hasFieldMask buf with
+    | .ok (c2, again), .ok mask =>
+      s!"walk{String.join fs} end adv={if again then 1 else 0} ns={c2.p.ns}{nsLetter c2.nst} hf={mask}"
+    | .fault f, _ => "FAULT model:" ++ f
+    | _, .fault f => "FAULT model:" ++ f
+    | _, _ => "throw model"
+
+def skiptoLine (bit : Nat) (buf : Bytes) : String :=
+  match mkC M buf with
+  | .throw e => "throw " ++ excName e
+  | .fault f => "FAULT model:" ++ f
+  | .ok c =>
+    match skipToFieldC M (walkFuel M) c bit with
+    | .throw e => "throw " ++ excName e
+    | .fault f => "FAULT model:" ++ f
+    | .ok (c2, r) =>
+      let opt := if r then optText (currentOptionC M c2.p) else "none"
+      s!"skipto r={if r then 1 else 0} ns={c2.p.ns}{nsLetter c2.nst} bit={c2.p.bit} off={c2.p.ptr} opt={opt}"
+
 def step (st : State) (line : String) : State × String :=
   match words line with
+  -- the raw parser ops start a case: they leave a default header behind, like `new`
+  | ["walk", h] => match parseHex h with
+    | some b => (defaultState, walkLine b)
+    | none => (st, "bad-op")
+  | ["skipto", n, h] => match n.toNat?, parseHex h with
+    | some bit, some b => (defaultState, skiptoLine bit b)
+    | _, _ => (st, "bad-op")
   | ["tail"] => (st, "tail " ++ toHex tailBytes)
   | ["new"] => stepOut st "new" (defaultCtor M)
   | ["parse", h] => match parseHex h with
@@ -112,10 +163,20 @@ def stdBit : String → Option Nat
   | "xchannel" => some 18 | "mcs" => some 19 | _ => none
 
 structure OState where
-  /-- the writes so far (base map first); `none` = the case has left the specified fragment -/
+  /-- the writes so far (fields of the first present word of the starting header first); `none` = the case has
+      left the specified fragment -/
   ws : Option (List (Nat × Bytes)) := none
   version : Nat := 0
   pad : Nat := 0
+  /-- what the setters do not own: further present words and the bytes after the first word's fields -/
+  frame : Frame := Frame.nil
+  /-- the last present word announces table fields: the bytes after the first word's fields may be re-padded -/
+  live : Bool := false
+  /-- the options payload the implementation reported last (for the clauses that hold in every state) -/
+  pl : Option Bytes := none
+  /-- two present words, the first announcing a radiotap namespace, the second's fields well aligned behind the
+      first's: those fields and the bytes behind them (`decodeLayout2`) -/
+  last : Option (List (Nat × Bytes) × Bytes) := none
 
 def kv (ws : List String) (key : String) : Option String :=
   ws.findSome? (fun w => if w.startsWith (key ++ "=") then some ((w.drop (key.length + 1)).toString) else none)
@@ -133,31 +194,108 @@ def expWith (m : FMap) (b : Nat) (f : Bytes → String) : String :=
   | some v => f v
   | none => "!field_not_present"
 
-/-- the (key, expected value) pairs of a state line -/
-def expectations (m : FMap) : List (String × String) :=
-  let c := canonical S m
-  let tr := match m 1 with
-    | some v => if byteAt v 0 / 16 % 2 == 1 then "4" else "0"
-    | none => "0"
-  [("pl", toHex c), ("pr", toString (presentWord (fieldList S m))), ("hs", toString (4 + c.length)), ("tr", tr),
-   ("tsft", expInt m 0), ("flags", expInt m 1), ("rate", expInt m 2),
-   ("chfreq", expWith m 3 (fun v => toString (slice v 0 2))), ("chtype", expWith m 3 (fun v => toString (slice v 2 2))),
-   ("dbmsig", expInt m 5), ("dbmnoise", expInt m 6), ("sq", expInt m 7), ("ant", expInt m 11), ("dbsig", expInt m 12),
-   ("rxf", expInt m 14), ("txf", expInt m 15), ("dr", expInt m 17),
-   ("xch", expWith m 18 (fun d => s!"{slice d 0 4}/{slice d 4 2}/{slice d 6 1}/{slice d 7 1}")),
-   ("mcs", expWith m 19 (fun d => s!"{slice d 0 1}/{slice d 1 1}/{slice d 2 1}"))]
+/-- (key, field bit, expected value) of the getters -/
+def getterExpectations (m : FMap) : List (String × Nat × String) :=
+  [("tsft", 0, expInt m 0), ("flags", 1, expInt m 1), ("rate", 2, expInt m 2),
+   ("chfreq", 3, expWith m 3 (fun v => toString (slice v 0 2))), ("chtype", 3, expWith m 3 (fun v => toString (slice v 2 2))),
+   ("dbmsig", 5, expInt m 5), ("dbmnoise", 6, expInt m 6), ("sq", 7, expInt m 7), ("ant", 11, expInt m 11),
+   ("dbsig", 12, expInt m 12), ("rxf", 14, expInt m 14), ("txf", 15, expInt m 15), ("dr", 17, expInt m 17),
+   ("xch", 18, expWith m 18 (fun d => s!"{slice d 0 4}/{slice d 4 2}/{slice d 6 1}/{slice d 7 1}")),
+   ("mcs", 19, expWith m 19 (fun d => s!"{slice d 0 1}/{slice d 1 1}/{slice d 2 1}"))]
 
-def checkLine (m : FMap) (out : String) : String :=
+def trailerOfMap (m : FMap) : Nat :=
+  match m 1 with
+  | some v => if byteAt v 0 / 16 % 2 == 1 then 4 else 0
+  | none => 0
+
+/-- the (key, expected value) pairs of a state line of a header whose foreign part `F` is inert: the payload is the
+    well-aligned layout of the last-write map inside the unchanged frame, the table bits of `present()` are the
+    domain of the map, every getter returns the last write or `field_not_present` -/
+def expectations (F : Frame) (m : FMap) : List (String × String) :=
+  let c := layL S F (fieldList S m)
+  [("pl", toHex c), ("hs", toString (4 + c.length)), ("tr", toString (trailerOfMap m))] ++
+  (getterExpectations m).map (fun e => (e.1, e.2.2))
+
+def checkLine (F : Frame) (m : FMap) (out : String) : String :=
   let ow := words out
   if out.startsWith "throw" then s!"violates no-throw {out}" else
-  match (expectations m).find? (fun e => kv ow e.1 != some e.2) with
-  | none => "ok"
+  match (expectations F m).find? (fun e => kv ow e.1 != some e.2) with
   | some e => s!"violates {e.1} expected={e.2} got={(kv ow e.1).getD "missing"}"
+  | none =>
+    let pr := ((kv ow "pr").getD "x").toNat?
+    let dom := presentWord (fieldList S m)
+    match pr with
+    | some w =>
+      if F == Frame.nil then (if w == dom then "ok" else s!"violates pr expected={dom} got={w}")
+      else if w % 2 ^ S.max == dom then "ok" else s!"violates pr-table-bits expected={dom} got={w}"
+    | none => "violates pr expected=a-number"
 
+/-- state line of a header whose last present word announces table fields (the bytes after the first word's fields
+    are fields to libtins, foreign to the setters): the fields of the first word must be laid out as the last-write map
+    says and read back, the present-word chain must be unchanged; last clause: the foreign bytes are unchanged -/
+def checkLive (F : Frame) (oldPl : Option Bytes) (m : FMap) (out : String) : String :=
+  let ow := words out
+  if out.startsWith "throw" then s!"violates no-throw {out}" else
+  match (kv ow "pl").bind parseHex with
+  | none => "violates pl expected=hex"
+  | some pl =>
+    match decodeLayout S pl with
+    | none => "violates first-namespace-layout not-well-aligned"
+    | some (F', fs') =>
+      if fs' != fieldList S m then s!"violates first-namespace-fields got={toHex pl}"
+      else if F'.hb != F.hb || F'.wsb != F.wsb then "violates present-word-chain"
+      else if kv ow "hs" != some (toString (4 + pl.length)) then "violates hs"
+      else
+        match (getterExpectations m).find? (fun e => (m e.2.1).isSome && kv ow e.1 != some e.2.2) with
+        | some e => s!"violates {e.1} expected={e.2.2} got={(kv ow e.1).getD "missing"}"
+        | none =>
+          if (m 1).isSome && kv ow "tr" != some (toString (trailerOfMap m)) then "violates tr"
+          else if F'.tail == F.tail then "ok"
+          else
+            -- the bytes behind the first word's fields changed.  Two present words, the first announcing a radiotap
+            -- namespace: they are radiotap fields and had to be re-aligned — same values at the new aligned offsets,
+            -- same bytes behind them.  Anything else (vendor / unknown namespace): they had to stay as they were.
+            let radiotapLast := F.k == 1 && stdNsAfter F.hb == 0
+            match radiotapLast, oldPl with
+            | true, some old =>
+              let oldOff := old.length - F.tail.length + 4
+              let newOff := pl.length - F'.tail.length + 4
+              match decodeFields S old F.lastWord S.max 0 oldOff with
+              | some fk =>
+                let e := enc S fk oldOff
+                if F.tail.take e.length != e then "unspecified"
+                else if F'.tail == enc S fk newOff ++ F.tail.drop e.length then "ok"
+                else s!"violates later-namespace-fields expected={toHex (enc S fk newOff ++ F.tail.drop e.length)} got={toHex F'.tail}"
+              | none => "unspecified"
+            | _, _ => s!"violates later-namespace-bytes expected={toHex F.tail} got={toHex F'.tail}"
+
+/-- state line of a header with two radiotap namespaces (`setters_two_words`): the payload is the two-word layout of the
+    last-write map over the first word's fields, the second word's fields re-aligned with their values, the rest
+    unchanged; every getter returns the first word's value, else the second word's -/
+def checkTwo (F : Frame) (fsK : List (Nat × Bytes)) (rest : Bytes) (m : FMap) (out : String) : String :=
+  let ow := words out
+  if out.startsWith "throw" then s!"violates no-throw {out}" else
+  let mK := mapOfList fsK
+  let mm : FMap := fun g => match m g with
+    | some v => some v
+    | none => mK g
+  let c := lay2 S F (fieldList S m) fsK rest
+  let exps := [("pl", toHex c), ("hs", toString (4 + c.length)), ("tr", toString (trailerOfMap mm))] ++
+    (getterExpectations mm).map (fun e => (e.1, e.2.2))
+  match exps.find? (fun e => kv ow e.1 != some e.2) with
+  | some e => s!"violates {e.1} expected={e.2} got={(kv ow e.1).getD "missing"}"
+  | none =>
+    match ((kv ow "pr").getD "x").toNat? with
+    | some w =>
+      let dom := presentWord (fieldList S m) ||| presentWord fsK
+      if w % 2 ^ S.max == dom then "ok" else s!"violates pr-table-bits expected={dom} got={w}"
+    | none => "violates pr expected=a-number"
+
+/-- `ser` in a state whose last-write map is known and whose frame is inert -/
 def checkSer (o : OState) (m : FMap) (inner : Bytes) (out : String) : String :=
   let ow := words out
   if out.startsWith "throw" then s!"violates no-throw {out}" else
-  let c := canonical S m
+  let c := layL S o.frame (fieldList S m)
   let hs := 4 + c.length
   let fcsOn := match m 1 with
     | some v => byteAt v 0 / 16 % 2 == 1
@@ -177,50 +315,240 @@ def checkSer (o : OState) (m : FMap) (inner : Bytes) (out : String) : String :=
   else if kv ow "reinner" != some "same" then "violates ser-reparse-inner"
   else "ok"
 
+/-- `ser` in any state (clauses of `serialize_any`): the header is version, pad, a length field covering exactly the
+    fixed part and the payload the object reported last, then that payload; a trailer is 0 or 4 bytes; re-parsing gives
+    the same payload (or the frame is one libtins refuses: FCS + FAILED_FCS, fewer than 4 bytes after the header) -/
+def checkSerAny (o : OState) (pl : Bytes) (inner : Bytes) (out : String) : String :=
+  let ow := words out
+  if out.startsWith "throw" then "unspecified" else
+  let hs := 4 + pl.length
+  match (kv ow "hdr").bind parseHex, ((kv ow "n").getD "x").toNat? with
+  | some hdr, some n =>
+    if hdr.drop 4 != pl then s!"violates ser-header-payload"
+    else if byteAt hdr 2 + 256 * byteAt hdr 3 != hs % 65536 then "violates ser-length-covers"
+    else if byteAt hdr 0 != o.version || byteAt hdr 1 != o.pad then "violates ser-version-pad"
+    else if n != hs + inner.length && n != hs + inner.length + 4 then "violates ser-size"
+    else if kv ow "body" != some "inner" then "violates ser-inner-bytes"
+    else if n == hs + inner.length + 4 && !inner.isEmpty && kv ow "fcs" != some "ok" then "violates ser-fcs"
+    else if hs ≥ 65536 then "ok"
+    else
+      let re := (kv ow "re").getD ""
+      if re == toHex pl then (if inner.isEmpty || kv ow "reinner" == some "same" then "ok" else "violates ser-reparse-inner")
+      else if re == "!malformed_packet" then "ok"
+      else s!"violates ser-reparse-payload got={re}"
+  | _, _ => "violates ser-format"
+
+/-! #### oracle of the raw parser ops (`walk`, `skipto`): what may be reported, by the radiotap standard -/
+
+structure RepItem where
+  ns : Nat
+  letter : String
+  bit : Nat
+  off : Nat
+  val : String
+
+def digitsOf (s : String) : String := String.ofList (s.toList.takeWhile Char.isDigit)
+def afterDigits (s : String) : String := String.ofList (s.toList.dropWhile Char.isDigit)
+
+/-- `f=<ns><R|V|U>:<bit>@<off>=<value>` -/
+def parseItem (tok : String) : Option RepItem :=
+  match tok.splitOn "=" with
+  | ["f", pos, val] =>
+    match pos.splitOn ":" with
+    | [nsp, r] =>
+      match r.splitOn "@" with
+      | [b, o] =>
+        match (digitsOf nsp).toNat?, b.toNat?, o.toNat? with
+        | some ns, some bit, some off => some { ns := ns, letter := afterDigits nsp, bit := bit, off := off, val := val }
+        | _, _, _ => none
+      | _ => none
+    | _ => none
+  | _ => none
+
+def stdLetter (n : Nat) : String := if n == 0 then "R" else if n == 1 then "V" else "U"
+
+def showStd (ns : Nat) (l : String) (it : StdItem) : String :=
+  s!"f={ns}{l}:{it.bit}@{it.off}=" ++ (match it.val with | some v => toHex v | none => "!malformed_packet")
+
+def getLast (ws : List Nat) : Nat := ws.getLastD 0
+
+/-- the fields a parser has to report on `buf` with present words `ws`, as far as the standard fixes them for a parser
+    that knows the fields below `S.max` only: the fields of the first word; then — if there are further words,
+    the first one has a defined field and no undefined one, the words in between announce no data, and the last
+    word is announced as a radiotap-namespace word — the fields of the last word.  `none` = not fixed. -/
+def stdWalk (buf : Bytes) (ws : List Nat) : List String × Option (List String) :=
+  let w0 := ws.headD 0
+  let k := ws.length - 1
+  let r0 := stdFieldsOf S buf w0 S.max 0 (4 * ws.length)
+  let first := r0.1.map (showStd 0 "R")
+  if k == 0 then (first, some []) else
+  if !r0.2.2 then (first, some []) else          -- the first word's fields already run out of the buffer
+  let undefined0 := w0 % 536870912 / 2 ^ S.max != 0
+  let middle := (ws.drop 1).dropLast
+  let before := if k == 1 then w0 else middle.getLastD 0
+  if r0.1.isEmpty || undefined0 || middle.any (fun w => w % 536870912 != 0) || stdNsAfter before != 0 then (first, none)
+  else
+    let rk := stdFieldsOf S buf (getLast ws) S.max 0 r0.2.1
+    (first, some (rk.1.map (showStd k "R")))
+
+def checkWalk (buf : Bytes) (out : String) : String :=
+  if out.startsWith "FAULT" then "violates parser-no-fault" else
+  let chain := if buf.isEmpty then some [] else stdChain (buf.length / 4 + 1) buf 0
+  match chain with
+  | none => if out == "throw malformed_packet" then "ok" else s!"violates parser-rejects-broken-chain"
+  | some ws =>
+    if out.startsWith "throw" then s!"violates parser-accepts-chain {out}" else
+    let toks := words out
+    if toks.contains "runaway" then "violates parser-terminates" else
+    let items := toks.filterMap parseItem
+    if items.length != (toks.filter (·.startsWith "f=")).length then "violates parser-report-format" else
+    let k := ws.length - 1
+    -- (a) every reported field is there: known bit, set in the present word of its namespace, aligned, inside the
+    --     buffer, value = the bytes at that offset, offsets ascending without overlap
+    let sound := items.all (fun it =>
+      it.bit < S.max && (it.ns == 0 || it.ns == k) && (ws.getD it.ns 0) / 2 ^ it.bit % 2 == 1 &&
+      (it.off + 4) % S.align it.bit == 0 && it.off < buf.length && it.off ≥ 4 * ws.length &&
+      it.val == (if it.off + S.size it.bit ≤ buf.length then toHex ((buf.drop it.off).take (S.size it.bit)) else "!malformed_packet"))
+    let rec ascending : List RepItem → Bool
+      | a :: b :: r => a.off + S.size a.bit ≤ b.off && (a.ns < b.ns || (a.ns == b.ns && a.bit < b.bit)) && ascending (b :: r)
+      | _ => true
+    if !sound then "violates parser-reports-only-present-fields" else
+    if !ascending items then "violates parser-report-order" else
+    -- (b) namespace letters: first namespace radiotap, a later one as announced by the word before it
+    let before := if k ≤ 1 then ws.headD 0 else ((ws.drop 1).dropLast).getLastD 0
+    let letterOk := items.all (fun it => it.letter == (if it.ns == 0 then "R" else stdLetter (stdNsAfter before)))
+    let endNs := (kv toks "ns").getD ""
+    let endOk := endNs == "0R" || (k > 0 && endNs == s!"{k}{stdLetter (stdNsAfter before)}")
+    if !(letterOk && endOk) then s!"violates parser-namespace-type expected={stdLetter (stdNsAfter before)} got={endNs}" else
+    -- (c) completeness where the standard fixes the layout
+    let (first, later) := stdWalk buf ws
+    let rep0 := (items.filter (·.ns == 0)).map (fun it => s!"f=0R:{it.bit}@{it.off}={it.val}")
+    let repk := (items.filter (fun it => it.ns != 0)).map (fun it => s!"f={it.ns}{it.letter}:{it.bit}@{it.off}={it.val}")
+    if rep0 != first then s!"violates parser-first-namespace expected={joinWith "," first}" else
+    let laterOk := match later with
+      | some l => repk == l || (first.isEmpty && repk.isEmpty)
+      | none => true
+    if !laterOk then s!"violates parser-later-namespace expected={joinWith "," (later.getD [])}" else
+    -- (d) has_field: only bits some present word has; every bit of a word that is followed by further bytes
+    let mask := ((kv toks "hf").getD "0").toNat?.getD 0
+    let anyWord := ws.foldl (· ||| ·) 0
+    let seen := (ws.zipIdx.filter (fun wi => 4 * wi.2 + 4 < buf.length)).foldl (fun acc wi => acc ||| wi.1) 0
+    if mask &&& anyWord != mask then s!"violates has_field-only-present got={mask}" else
+    if seen &&& mask != seen then s!"violates has_field-all-present expected={seen} got={mask}" else "ok"
+
+def checkSkipto (bit : Nat) (buf : Bytes) (out : String) : String :=
+  if out.startsWith "FAULT" then "violates parser-no-fault" else
+  let chain := if buf.isEmpty then some [] else stdChain (buf.length / 4 + 1) buf 0
+  match chain with
+  | none => if out == "throw malformed_packet" then "ok" else s!"violates parser-rejects-broken-chain"
+  | some ws =>
+    if out.startsWith "throw" then s!"violates parser-accepts-chain {out}" else
+    let toks := words out
+    let (first, later) := stdWalk buf ws
+    let pick (l : List String) : Option String := l.find? (fun t => (t.splitOn ":").getD 1 "" |>.startsWith s!"{bit}@")
+    let expect : Option (Option String) :=      -- some none = not found; none = not fixed by the standard
+      match pick first, later with
+      | some t, _ => some (some t)
+      | none, some l => if first.isEmpty && ws.length > 1 then none else some (pick l)
+      | none, none => none
+    match expect with
+    | none => "unspecified"
+    | some none => if kv toks "r" == some "0" then "ok" else "violates skip_to_field-finds-absent-field"
+    | some (some t) =>
+      -- t = f=<ns><L>:<bit>@<off>=<val>
+      match parseItem t with
+      | some it =>
+        if kv toks "r" == some "1" && kv toks "bit" == some (toString bit) && kv toks "off" == some (toString it.off)
+            && kv toks "opt" == some it.val && ((kv toks "ns").getD "").startsWith (toString it.ns)
+        then "ok" else s!"violates skip_to_field expected={t}"
+      | none => "bad-oracle"
+
+def plOf (out : String) : Option Bytes :=
+  if out.startsWith "throw" || out.startsWith "FAULT" then none else (kv (words out) "pl").bind parseHex
+
 /-- spec mode: each input line is `<op> ||| <implementation output>` -/
 def specStep (st : OState) (line : String) : OState × String :=
   match line.trimAscii.toString.splitOn " ||| " with
   | [op, out] =>
     match words op with
+    | ["walk", h] => match parseHex h with
+      | some b => ({ ws := some defaultWrites }, checkWalk b out)
+      | none => (st, "unspecified")
+    | ["skipto", n, h] => match n.toNat?, parseHex h with
+      | some bit, some b => ({ ws := some defaultWrites }, if bit < S.max then checkSkipto bit b out else "unspecified")
+      | _, _ => (st, "unspecified")
     | ["tail"] => (st, "ok")
     | ["new"] =>
-      let st' : OState := { ws := some defaultWrites }
-      (st', checkLine (lastWrite FMap.empty defaultWrites) out)
+      let st' : OState := { ws := some defaultWrites, pl := plOf out }
+      (st', checkLine Frame.nil (lastWrite FMap.empty defaultWrites) out)
     | ["parse", h] =>
       match parseHex h with
       | some b =>
         let len := byteAt b 2 + 256 * byteAt b 3
-        let fs := if b.length ≥ 8 && len == b.length then decodeCanonical S (b.drop 4) else none
-        match fs with
-        | some fs =>
+        let dec := if b.length ≥ 8 && len == b.length then decodeLayout S (b.drop 4) else none
+        let bare : OState := { ws := none, version := byteAt b 0, pad := byteAt b 1, pl := plOf out }
+        match dec with
+        | some (F, fs) =>
           let m := mapOfList fs
           let refused := match m 1 with
             | some v => byteAt v 0 / 16 % 2 == 1 && byteAt v 0 / 64 % 2 == 1
             | none => false
-          if refused then ({ ws := none }, "unspecified")
-          else ({ ws := some fs, version := byteAt b 0, pad := byteAt b 1 }, checkLine m out)
-        | none => ({ ws := none }, "unspecified")
+          if refused then (if out.startsWith "throw" then { ws := some defaultWrites } else bare, "unspecified")
+          else
+            let live := !decide (F.inert S)
+            let two := if live && F.k == 1 && stdNsAfter F.hb == 0 then
+                (decodeLayout2 S (b.drop 4)).map (fun r => (r.2.2.1, r.2.2.2)) else none
+            ({ bare with ws := some fs, frame := F, live := live, last := two },
+             match two with
+             | some (fsK, rest) => checkTwo F fsK rest m out
+             | none => if live then checkLive F (plOf out) m out else checkLine F m out)
+        | none =>
+          -- a refused parse leaves the default header the harness constructed before it
+          (if out.startsWith "throw" then { ws := some defaultWrites } else bare, "unspecified")
       | none => ({ ws := none }, "unspecified")
     | ["set", f, h] =>
       match st.ws, stdBit f, parseHex h with
       | some ws, some b, some v =>
         if decide (validWrite S (b, v)) then
           let ws' := ws ++ [(b, v)]
-          ({ st with ws := some ws' }, checkLine (lastWrite FMap.empty ws') out)
-        else ({ st with ws := none }, "unspecified")
-      | _, _, _ => ({ st with ws := none }, "unspecified")
+          let m := lastWrite FMap.empty ws'
+          let st' := { st with ws := some ws', pl := plOf out }
+          if let some (fsK, rest) := st.last then (st', checkTwo st.frame fsK rest m out)
+          else if st.live then
+            let r := checkLive st.frame st.pl m out
+            -- the foreign bytes the next call starts from are the ones the object holds now
+            let F' := match (plOf out).bind (decodeLayout S) with
+              | some (F2, _) => { st.frame with tail := F2.tail }
+              | none => st.frame
+            ({ st' with frame := F' }, r)
+          else (st', checkLine st.frame m out)
+        else ({ st with ws := none, pl := plOf out }, "unspecified")
+      | _, _, _ => ({ st with ws := none, pl := plOf out }, "unspecified")
     | ["add", n, h] =>
       match st.ws, n.toNat?, parseHex h with
       | some ws, some b, some v =>
         if decide (validWrite S (b, v)) then
           let ws' := ws ++ [(b, v)]
-          ({ st with ws := some ws' }, checkLine (lastWrite FMap.empty ws') out)
-        else ({ st with ws := none }, "unspecified")
-      | _, _, _ => ({ st with ws := none }, "unspecified")
+          let m := lastWrite FMap.empty ws'
+          let st' := { st with ws := some ws', pl := plOf out }
+          if let some (fsK, rest) := st.last then (st', checkTwo st.frame fsK rest m out)
+          else if st.live then
+            let r := checkLive st.frame st.pl m out
+            let F' := match (plOf out).bind (decodeLayout S) with
+              | some (F2, _) => { st.frame with tail := F2.tail }
+              | none => st.frame
+            ({ st' with frame := F' }, r)
+          else (st', checkLine st.frame m out)
+        else ({ st with ws := none, pl := if out.startsWith "throw" then st.pl else plOf out }, "unspecified")
+      | _, _, _ => ({ st with ws := none, pl := if out.startsWith "throw" then st.pl else plOf out }, "unspecified")
     | ["ser", h] =>
-      match st.ws, parseHex h with
-      | some ws, some inner => (st, checkSer st (lastWrite FMap.empty ws) inner out)
-      | _, _ => (st, "unspecified")
+      match parseHex h with
+      | some inner =>
+        match st.ws, st.live, st.pl with
+        | some ws, false, _ => (st, checkSer st (lastWrite FMap.empty ws) inner out)
+        | _, _, some pl => (st, checkSerAny st pl inner out)
+        | _, _, none => (st, "unspecified")
+      | none => (st, "unspecified")
     | _ => ({ st with ws := none }, "unspecified")
   | _ => (st, "bad-line")
 
